@@ -111,6 +111,9 @@ func (s *scripted) Read(p []byte) (int, error) {
 		}
 		s.chunks = s.chunks[1:]
 	}
+	if k < 1 {
+		k = 1
+	}
 	if k > len(s.data) {
 		k = len(s.data)
 	}
@@ -563,7 +566,7 @@ func main() {
 			c.Chunks = append(c.Chunks, 1+r.IntN(int(n)+2))
 		}
 		if r.IntN(4) == 0 {
-			c.Chunks = append(c.Chunks, int(n)-1, 1, 1)
+			c.Chunks = append(c.Chunks, max(1, int(n)-1), 1, 1)
 		}
 		switch r.IntN(6) {
 		case 0:
